@@ -663,7 +663,7 @@ fn run_history_inner<KK: KeyKind>(ctx: &mut Ctx, h: &History, opts: &RunOpts) ->
     KK::arm(&own_k, None);
     KK::arm(&other_k, None);
     match h.fault {
-        Some((Signer::Own, n)) => KK::arm(&own_k, Some(n)),
+        Some((Signer::Own, n)) | Some((Signer::Alt, n)) => KK::arm(&own_k, Some(n)),
         Some((Signer::Other, n)) => KK::arm(&other_k, Some(n)),
         None => {}
     }
@@ -804,8 +804,37 @@ fn run_history_inner<KK: KeyKind>(ctx: &mut Ctx, h: &History, opts: &RunOpts) ->
             ctx.count("deadline-skips");
             break;
         }
+        if step.signer == Signer::Alt {
+            // cross-scheme signer: reduced monitors, then the history ends
+            if let Some(ak) = alt_k.as_ref() {
+                let res = guard(|| apply_op_alt(&mut enr, &step.op, ak, &own_k, None));
+                ctx.count("evaluations");
+                ctx.count("cross-scheme-steps");
+                match res {
+                    Err(p) => ctx.violate("C03", "panic", &format!("{}/{}", step.op.name(), panic_sig(&p)), || format!("{ktn}: cross-scheme {} panicked: {p}", step.op.name()), &replay),
+                    Ok(r) => {
+                        let enc = guard(|| (alloy_rlp::encode(&enr), enr.size()));
+                        match enc {
+                            Ok((enc, size)) => {
+                                if r.is_ok() && enc.len() > 300 {
+                                    ctx.violate("C09", "record-exceeds-300", &format!("{}[cross-scheme-signer]", step.op.name()), || format!("{ktn}: {} bytes after a cross-scheme {}", enc.len(), step.op.name()), &replay);
+                                }
+                                if size != enc.len() {
+                                    ctx.violate("C09", "size()-differs-from-encoding", &format!("{}[cross-scheme-signer]", step.op.name()), || format!("size() {size} len {}", enc.len()), &replay);
+                                }
+                                if r.is_err() && enc != cur.enc {
+                                    ctx.violate("C06", "record-changed-by-failed-update", &format!("{}[cross-scheme-signer]/encoding", step.op.name()), || "a failed cross-scheme update changed the record".into(), &replay);
+                                }
+                            }
+                            Err(p) => ctx.violate("C03", "panic", &format!("encode/{}", panic_sig(&p)), || p.clone(), &replay),
+                        }
+                    }
+                }
+            }
+            break;
+        }
         let (signer_k, nonsigner_k, ms_s, ms_n) = match step.signer {
-            Signer::Own => (&own_k, &other_k, &ms_own, &ms_other),
+            Signer::Own | Signer::Alt => (&own_k, &other_k, &ms_own, &ms_other),
             Signer::Other => (&other_k, &own_k, &ms_other, &ms_own),
         };
         let opn = step.op.name();
